@@ -10,7 +10,8 @@ R: harness/cmd/contenthash instantiates the pairs as real RelayPrivateData, comp
    sigs.HashMsg(GetContentHashData()) and the provider's session.ContentHash check.
 V: TLC (Trace_ContentHash) judges every line: real collision modelled -> collision:{class} (open known
    findings, one per class); real collision the model does not have -> collision-unmodelled:{class}
-   (VIOLATION, e.g. a field dropped from the hash); model collision that is not real -> drift.
+   (VIOLATION, e.g. a field dropped from the hash); model collision that is not real -> drift; real hash input
+   bytes != the model's Enc of the request -> encoding-mismatch (VIOLATION).
 """
 import json
 import os
@@ -59,6 +60,9 @@ def _what(sig, row):
         return ("different requests, same real content hash %s (differing fields %s): r1=%s r2=%s; a session signed for r1 passes the "
                 "provider's content-hash check for r2: %s" % (row["h1"], sig.split(":", 1)[1], json.dumps(row["r1"], sort_keys=True),
                                                               json.dumps(row["r2"], sort_keys=True), row["reuse"]))
+    if sig == "encoding-mismatch":
+        return ("the real GetContentHashData bytes differ from ContentHash.tla's Enc: r1=%s real=%s ; r2=%s real=%s" % (
+            json.dumps(row["r1"], sort_keys=True), "".join(row["e1"]), json.dumps(row["r2"], sort_keys=True), "".join(row["e2"])))
     if sig.startswith("collision-unmodelled:"):
         return ("different requests with different byte streams hash equal (%s) - not a delimiter collision: r1=%s r2=%s" % (
             sig.split(":", 1)[1], json.dumps(row["r1"], sort_keys=True), json.dumps(row["r2"], sort_keys=True)))
@@ -88,8 +92,10 @@ def run(ctx):
     opath = os.path.join(ctx.work, "mutpairs.ndjson")
     vlib.tlc_mc(ctx, "Emit_ContentHash", "Emit_ContentHash.cfg", workers=1, env={"VERIF_OUT": opath}, timeout=600, tag="emit")
     mut = vlib.read_ndjson(opath)
-    if len(mut) < 40:
-        raise vlib.Infra("only %d model-distinct pairs emitted" % len(mut))
+    n_multi = sum(1 for p in mut if len(p["r1"]["metadata"]) >= 2)
+    if len(mut) - n_multi < 40 or n_multi < 300:
+        raise vlib.Infra("only %d single-field / %d multi-entry-metadata model-distinct pairs emitted" % (len(mut) - n_multi, n_multi))
+    ctx.cov["md_multi_entry_pairs"] = n_multi
     pairs += mut
     pairs += [{"r1": mut[0]["r1"], "r2": mut[0]["r1"]}, {"r1": mut[-1]["r2"], "r2": mut[-1]["r2"]}]
     rows, bad = _judge(ctx, pairs, "all")
@@ -104,8 +110,9 @@ def run(ctx):
     ctx.cov["collision_classes"] = len(classes)
     ctx.cov["real"] = {"pairs": len(rows), "hash_equal": len(rows) - n_diff, "hash_different": n_diff}
     ctx.cov["rule"] = ("pairs = %d witnesses per irreducible collision class found by TLC (%d classes) + every single-field mutation of "
-                       "two base requests (every hashed field mutated; model says different) + 2 identical pairs; non-trivial = the two "
-                       "requests differ" % (WITNESSES, len(classes)))
+                       "two base requests (every hashed field mutated; model says different) + equal-length mutations of an earlier entry "
+                       "of every 2-3 entry metadata list of MdLists + 2 identical pairs; for every request the real hash input is compared "
+                       "with the model's Enc; non-trivial = the two requests differ" % (WITNESSES, len(classes)))
     ctx.cov["traces_validated_against_impl"] += len(rows)
     ctx.sample(pairs[0])
     ctx.sample(pairs[n_col])
